@@ -97,6 +97,9 @@ def check_case(ctx, v, params, kind, delivery, origin):
 
 
 def run_shard(ctx):
+    # the same length rules on the events split() yields (tokens = regions, frames = analysis windows; flags spelled True / 1 / numpy.True_)
+    T.split_level(ctx, 120 if ctx.tier == "quick" else 6000,
+                  lambda verdicts, tokens, case: inv.c02([([None] * (e - s + 1), s, e) for _, s, e in tokens], case["min_len"], case["max_len"], bool(case["strict"])))
     constructor_grid(ctx)
     conf = TIERS[ctx.tier]
     for v, params, kind, delivery, origin in T.iter_cases(ctx, conf, validator_faults=True):
